@@ -176,7 +176,63 @@ impl Prop for C20 {
          cfg-gated code sits) and at least one outcome that is not help; distinct by hash of the \
          choice string."
     }
-    fn check(&self, _bytes: &[u8], _ctx: &mut Ctx) -> Verdict {
+    /// only used by `--replay`: one case through all five builds
+    fn check(&self, bytes: &[u8], ctx: &mut Ctx) -> Verdict {
+        if let Err(e) = build_all() {
+            return Verdict::fail("infrastructure/build", e);
+        }
+        let work = PathBuf::from(crate::engine::verif_root()).join("work");
+        let names: Vec<&str> = SETS.iter().map(|s| s.0).collect();
+        let dumps = match run_dumpers(&work, "replay", &[bytes.to_vec()], &names) {
+            Ok(d) => d,
+            Err(e) => return Verdict::fail("infrastructure/run", e),
+        };
+        ctx.eval(names.len() as u64);
+        for (si, d) in dumps.iter().enumerate().skip(1) {
+            if d.first() != dumps[0].first() {
+                return Verdict::fail(
+                    format!("feature-set-changes-outcome/{}-vs-{}", names[0], names[si]),
+                    format!(
+                        "build `{}` says:\n{}\nbuild `{}` says:\n{}",
+                        names[0],
+                        dumps[0].first().cloned().unwrap_or_default(),
+                        names[si],
+                        d.first().cloned().unwrap_or_default()
+                    ),
+                );
+            }
+        }
+        let mut outs: Vec<(Vec<u8>, Vec<u8>)> = Vec::new();
+        for s in &names {
+            match Command::new(dumper(s))
+                .arg("--print")
+                .arg(hex(bytes))
+                .env_remove("NO_COLOR")
+                .env_remove("CLICOLOR_FORCE")
+                .env_remove("FORCE_COLOR")
+                .env("TERM", "xterm-256color")
+                .stdin(Stdio::null())
+                .output()
+            {
+                Ok(o) => outs.push((o.stdout, o.stderr)),
+                Err(e) => return Verdict::fail("infrastructure/run", e.to_string()),
+            }
+        }
+        for (si, o) in outs.iter().enumerate().skip(1) {
+            if *o != outs[0] {
+                return Verdict::fail(
+                    format!("feature-set-changes-printed-message/none-vs-{}", names[si]),
+                    format!(
+                        "build `none`: stdout {:?} stderr {:?}\nbuild `{}`: stdout {:?} stderr {:?}",
+                        String::from_utf8_lossy(&outs[0].0),
+                        String::from_utf8_lossy(&outs[0].1),
+                        names[si],
+                        String::from_utf8_lossy(&o.0),
+                        String::from_utf8_lossy(&o.1)
+                    ),
+                );
+            }
+        }
         Verdict::Pass
     }
     fn describe(&self, bytes: &[u8]) -> Value {
@@ -340,7 +396,62 @@ impl Prop for C20 {
                 }
             }
         }
+        // what bpaf prints itself (the path of OptionParser::run): same bytes on the same
+        // stream from every build when the streams are not a terminal
+        let n_print = if env.tier == "thorough" { 1500 } else { 150 };
+        let mut printed = 0u64;
+        let mut print_seen = false;
+        for (i, bytes) in corpus.iter().enumerate() {
+            if printed >= n_print || print_seen {
+                break;
+            }
+            let base = match dumps[0].get(i) {
+                Some(b) => b,
+                None => continue,
+            };
+            let first = base.lines().next().unwrap_or("");
+            if !(first.starts_with("stdout") || first.starts_with("stderr")) {
+                continue;
+            }
+            printed += 1;
+            let mut outs: Vec<(Vec<u8>, Vec<u8>)> = Vec::new();
+            for s in &names {
+                let o = Command::new(dumper(s))
+                    .arg("--print")
+                    .arg(hex(bytes))
+                    .env_remove("NO_COLOR")
+                    .env_remove("CLICOLOR_FORCE")
+                    .env_remove("FORCE_COLOR")
+                    .env("TERM", "xterm-256color")
+                    .stdin(Stdio::null())
+                    .output();
+                match o {
+                    Ok(o) => outs.push((o.stdout, o.stderr)),
+                    Err(_) => outs.push((b"<spawn failed>".to_vec(), Vec::new())),
+                }
+            }
+            for (si, o) in outs.iter().enumerate().skip(1) {
+                if *o != outs[0] {
+                    print_seen = true;
+                    out.push(Violation {
+                        sig: format!("feature-set-changes-printed-message/none-vs-{}", names[si]),
+                        detail: format!(
+                            "print_message to a pipe:\nbuild `none`: stdout {:?} stderr {:?}\nbuild `{}`: stdout {:?} stderr {:?}",
+                            String::from_utf8_lossy(&outs[0].0),
+                            String::from_utf8_lossy(&outs[0].1),
+                            names[si],
+                            String::from_utf8_lossy(&o.0),
+                            String::from_utf8_lossy(&o.1)
+                        ),
+                        case: self.describe(bytes),
+                        bytes: bytes.clone(),
+                    });
+                    break;
+                }
+            }
+        }
         *ev = json!({
+            "messages_printed_by_every_build_and_compared": printed,
             "evaluations": corpus.len() as u64 * SETS.len() as u64,
             "distinct_nontrivial": nontrivial.len() as u64,
             "samples": samples,
